@@ -1,8 +1,10 @@
 package midicatdrv
 
 import (
+	"errors"
 	"fmt"
 	"io"
+	"os"
 	"os/exec"
 	"sync"
 
@@ -42,6 +44,13 @@ func (o *out) fireCmd() error {
 		o.cmd = nil
 		return err
 	}
+
+	// when the helper process has ended, nobody reads the pipe any more:
+	// close it, so that Send returns an error instead of blocking forever
+	go func(cmd *exec.Cmd, rd *io.PipeReader, number int) {
+		cmd.Process.Wait()
+		rd.CloseWithError(fmt.Errorf("midicat process of MIDI out port %v has ended", number))
+	}(o.cmd, o.rd, o.number)
 
 	return err
 }
@@ -99,6 +108,10 @@ func (o *out) Close() (err error) {
 	defer o.Unlock()
 	o.wr.Close()
 	err = o.cmd.Process.Kill()
+	if errors.Is(err, os.ErrProcessDone) {
+		// the process has ended already, that is fine
+		err = nil
+	}
 	o.cmd = nil
 	o.rd.Close()
 	o.wr = nil
